@@ -496,3 +496,46 @@ func replayOne(t *testing.T) {
 		t.Errorf("VIOLATION %s signature=%s: %s", rf.Property, found.Signature, found.Detail)
 	}
 }
+
+// fuzzCheck runs one case inside a native fuzz target: on a violation that is
+// not a known finding the structured case is written where the driver finds
+// it, and the target fails (so go saves the crasher too).
+func fuzzCheck[C any](t *testing.T, id string, check func(C, *Rec) *Violation, c C) {
+	rec := fuzzRec(id)
+	v := rec.filter(safeCheck(id, check, c, rec))
+	if v == nil {
+		return
+	}
+	raw, _ := json.Marshal(c)
+	rf := replayFile{Property: id, Signature: v.Signature, Detail: v.Detail, Case: raw}
+	if dir := os.Getenv("VERIF_FUZZ_OUT"); dir != "" {
+		b, _ := json.MarshalIndent(rf, "", " ")
+		_ = os.WriteFile(filepath.Join(dir, fmt.Sprintf("fuzz-violation-%016x.json", hash64(string(raw)))), b, 0o644)
+	}
+	t.Fatalf("VIOLATION %s signature=%s: %s", id, v.Signature, v.Detail)
+}
+
+var (
+	fuzzRecMu sync.Mutex
+	fuzzRecs  = map[string]*Rec{}
+)
+
+func fuzzRec(id string) *Rec {
+	fuzzRecMu.Lock()
+	defer fuzzRecMu.Unlock()
+	r := fuzzRecs[id]
+	if r == nil {
+		r = newRec(id)
+		fuzzRecs[id] = r
+	}
+	if len(r.nontriv) > 200000 {
+		r.nontriv = map[uint64]struct{}{}
+	}
+	return r
+}
+
+// FuzzNone exists so that the setup command can warm the instrumented build.
+func fuzzNone(f *testing.F) {
+	f.Add("x")
+	f.Fuzz(func(t *testing.T, s string) {})
+}
